@@ -423,8 +423,10 @@ class Functor(pg_object.Object, utils.Functor):
             f'positional {arg_phrase} but {len(args)} {was_phrase} given.'
         )
 
+    # NOTE: bound arguments are read as the attributes report them, so that
+    # inferential values (e.g. `pg.Ref`) are resolved before the call.
     keyword_args = {
-        k: v for k, v in self._sym_attributes.items()
+        k: self.sym_inferred(k) for k in self._sym_attributes.keys()
         if k in self._specified_args
     }
     assert len(keyword_args) == len(self._specified_args)
